@@ -532,7 +532,7 @@ func (*c16) Exhaustive(tier string) []any { return c16Exhaustive(tier) }
 // ---------------------------------------------------------------- generator
 
 var c16Comps = []string{"a", "b.txt", "templates", "x.yaml", "..", "..", ".", "", "Chart.yaml", "charts", "c:", "C:", "..foo", "...",
-	"ünï", "日本語", "a b", "con", "values.yaml", "-", "~", "%2e%2e", "nul\u0001", "d.e.f", ".hidden", "..."}
+	"ünï", "日本語", "a b", "con", "values.yaml", "-", "~", "%2e%2e", "nul\u0001", "d.e.f", ".hidden", "...", "blob.tgz", "sub-0.1.0.tgz"}
 
 func c16Name(r *rand.Rand) string {
 	first := []string{"chart", "chart", "chart", "chart", "c", "", ".", "..", "Chart.yaml", "c:", "日本"}[r.Intn(11)]
@@ -580,7 +580,7 @@ func c16Name(r *rand.Rand) string {
 }
 
 func c16GoodName(r *rand.Rand) string {
-	good := []string{"a", "b.txt", "templates", "x.yaml", "charts", "ünï", "values.yaml", ".hidden", "d.e.f", "README.md"}
+	good := []string{"a", "b.txt", "templates", "x.yaml", "charts", "charts", "ünï", "values.yaml", ".hidden", "d.e.f", "README.md", "blob.tgz", "dep-1.0.0.tgz", "x.prov"}
 	s := "chart"
 	for i := 0; i <= r.Intn(3); i++ {
 		s += "/" + good[r.Intn(len(good))]
@@ -736,6 +736,12 @@ func (p *c16) Corpus() []any {
 	// an actual file of exactly the default per-file limit and one byte more (content not handed to the model)
 	out = append(out, c16Case{Kind: "arch", Ents: []c16Ent{c16Chart("d"), {Name: "d/f", Type: '0', Mode: 0o644, Size: -1, Fill: defF}}})
 	out = append(out, c16Case{Kind: "arch", Ents: []c16Ent{c16Chart("d"), {Name: "d/f", Type: '0', Mode: 0o644, Size: -1, Fill: defF + 1}}})
+	// the limits apply to every entry whatever its name: packaged-dependency-looking names
+	// (charts/*.tgz, nested or not) one byte over the per-file limit, total well below
+	for _, n := range []string{"c/charts/sub-0.1.0.tgz", "c/charts/sub/files/blob.tgz", "c/charts/a/charts/b.tgz", "c/templates/x.tgz", "c/charts/.tgz"} {
+		out = append(out, c16Case{Kind: "arch", MaxTotal: 100000, MaxFile: 50, Ents: []c16Ent{c16Chart("c"), {Name: n, Type: '0', Mode: 0o644, Size: -1, Fill: 51}}})
+		out = append(out, c16Case{Kind: "arch", MaxTotal: 100000, MaxFile: 50, Ents: []c16Ent{c16Chart("c"), {Name: n, Type: '0', Mode: 0o644, Size: -1, Fill: 50}}})
+	}
 	// classic hostile names
 	for _, n := range []string{"c/../../etc/passwd", "c//etc/passwd", "c\\..\\..\\x", "c/c:/x", "c/C:\\x", "/c/x", "c", "c/", "c/.", "c/a/..",
 		"c/..a", "Chart.yaml/x", "c/./a/../b", "c\\a/b", "c/a\\b", "../c/x", "./c/x", "c/a/", "c/日本/ü", "c/...", "c/a//b", "c/c:", "c/c:x"} {
